@@ -16,7 +16,8 @@ RULE = ("default strategy (nbmerge without strategy flags) x renderer {git merge
         "sources; provenance = every non-blank merged source line is a line of base, local or remote or matches the conflict-marker grammar "
         "as a whole line. (2) flagging cases built by construction: minor-5 base, one cell (same id on all sides) where both sides rewrite "
         "the same line(s) to different text (plus unrelated edits elsewhere): some decision must be conflicted and the merged source of "
-        "that cell must contain both variants. Merges that raise are C03's subject and only counted. Non-trivial: some side added a source "
+        "that cell must contain both variants, and keeping one side of every conflict block of that source gives back that side's source "
+        "(lines compared after rstrip). Merges that raise are C03's subject and only counted. Non-trivial: some side added a source "
         "line (1) / rewritten line neither first nor last (2); distinct = canonical JSON of (triple, renderer).")
 ASSUMPTIONS = ["lines compared after rstrip, split with str.splitlines on every side", "git runs with an empty global/system configuration (default conflict style)",
                "marker grammar: '<<<<<<< local', '||||||| base', '=======', '>>>>>>> remote', the two CELL DELETED markers and the red <span> cell markers"]
@@ -143,7 +144,39 @@ def run_case(case):
         src = "\n".join(c["source"] for c in cell)
         if not cell or any(va not in src or vb not in src for va, vb in case["pairs"]):
             out.fail("flagging", "variants_not_both_presented", detail=detail_base)
+        elif len(cell) == 1:
+            # taking one side of every conflict block must give back that side's source (nothing dropped, nothing invented, nothing twice)
+            for side in ("local", "remote"):
+                want = [c for c in case[side]["cells"] if c.get("id") == case["cell_id"]]
+                got = resolve_side(cell[0]["source"], side)
+                if want and got is not None:
+                    out.count("sides_reconstructed_from_marked_source")
+                    if [x.rstrip() for x in got.splitlines()] != [x.rstrip() for x in want[0]["source"].splitlines()]:
+                        out.fail("side_reconstructible", "%s_not_reconstructible_from_marked_source" % side, "renderer " + rend, detail=dict(detail_base, got=got[-200:], want=want[0]["source"][-200:]))
+                        break
     return out
+
+
+def resolve_side(text, side):
+    """The text one gets by keeping `side` (local / remote) of every conflict block; None if the marker structure is not well-formed."""
+    res, state = [], "common"
+    for line in text.splitlines(True):
+        bare = line.rstrip("\r\n")
+        if bare.startswith("<<<<<<< "):
+            if state != "common":
+                return None
+            state = "local"
+        elif bare.startswith("|||||||"):
+            if state != "local":
+                return None
+            state = "base"
+        elif bare == "=======" and state in ("local", "base"):
+            state = "remote"
+        elif bare.startswith(">>>>>>> ") and state == "remote":
+            state = "common"
+        elif state == "common" or state == side:
+            res.append(line)
+    return "".join(res) if state == "common" else None
 
 
 def _has_marker(line):
